@@ -281,9 +281,19 @@ def register_named_children(R):
                    note='generator; its yielded pairs are recorded component-wise in two ghost lists'))
 
 
+def register_named_children_view(R):
+    comp = lambda: P.node('self', 'ComposedNode')
+    from pyvc.values import IterV
+    R.add(Contract(C + 'ComposedNode.ayns.named_children', [comp()], name='items-view', assume_only=True, pure=True,
+                   result=lambda c, it: IterV('items', S.children(c.pre, c.ref('self'))), props=('C04',), opts={'callee': True, 'bind_partial': True},
+                   note='call-site view of named_children() called without arguments: iteration over the (key, child) entries of the child view in order - '
+                        'exactly what the contract named_children#default-arguments proves of the generator'))
+
+
 def _reg_all(R):
     register(R)
     register_named_children(R)
+    register_named_children_view(R)
     register2(R)
     register3(R)
     register4(R)
